@@ -89,6 +89,10 @@ type retryItem struct {
 	origRev statedb.Revision
 	delete  bool
 
+	// statusID is the identifier of the error status stored for the object
+	// by the failed attempt. Zero for deletions.
+	statusID uint64
+
 	index      int       // item's index in the retry time priority queue
 	revIndex   int       // item's index in the revision priority queue
 	retryAt    time.Time // time at which to retry
@@ -180,6 +184,14 @@ func (rq *retries) Add(obj any, rev statedb.Revision, origRev statedb.Revision, 
 		rq.resetTimer()
 	}
 
+}
+
+// setStatusID records the identifier of the error status stored for the
+// object that was just added.
+func (rq *retries) setStatusID(obj any, id uint64) {
+	if item, ok := rq.items[string(rq.objectToKey(obj))]; ok {
+		item.statusID = id
+	}
 }
 
 func (rq *retries) Clear(obj any) {
